@@ -255,6 +255,72 @@ def r5_nothing_skipped(ctx):
             r.ok(f.root + "|shutdown-gate", cfg.loc(f.main), "no count-gated shutdown signal in this function", work=1)
 
 
+def r7_paging_can_continue(ctx):
+    """If an integrity reader pages through rows with `LIMIT ?k`, the test that
+    decides whether there is another page must be satisfiable: a result of a
+    query limited to N rows never has more than N, so `rows.len() > N` (same N)
+    is always false and the scan silently stops after the first page.
+    Expected count on the pinned tree: zero paged readers."""
+    ws = ctx.ws
+    r = ctx.rule("C16-R7", "a paged integrity reader can reach its next page (the continuation test is satisfiable under the LIMIT it binds)",
+                 floor=1, kind="K8 SQL literal + constant relation between the LIMIT bound and the continuation comparison")
+    n = 0
+    for root, fn in sorted(ws.fns.items()):
+        if fn.crate != "sos_integrity":
+            continue
+        lim_ph = None
+        for b, i, t in fn.calls():
+            if cname(t) == "limit" and t.get("args"):
+                for a in t["args"][1:]:
+                    c = cfg.op_const(a)
+                    if c and isinstance(c.get("s"), str):
+                        m = re.match(r"\?(\d+)$", c["s"].strip())
+                        if m:
+                            lim_ph = int(m.group(1))
+        if lim_ph is None:
+            continue
+        n += 1
+        # the constant bound to that placeholder: k-th element of a tuple passed to query*/execute
+        bound = None
+        for b in fn.bodies:
+            defs = cfg.defs_of(b)
+            for i, t in idioms.real_calls(b):
+                if cname(t) not in ("query", "query_map", "query_row", "execute", "query_and_then"):
+                    continue
+                for a in t["args"]:
+                    p_ = cfg.op_place(a)
+                    if p_ is None:
+                        continue
+                    for (_bi, st, is_term) in defs.get(cfg.place_local(p_), []):
+                        if not is_term and st.get("k") == "agg" and st.get("ak") == "tuple" and len(st["ops"]) >= lim_ph:
+                            e = idioms.expr_tree(b, st["ops"][lim_ph - 1], defs)
+                            while isinstance(e, tuple) and e[0] == "cast":
+                                e = e[1]
+                            if isinstance(e, tuple) and e[0] == "const" and isinstance(e[1], int):
+                                bound = e[1]
+        k = root + "|paging"
+        if bound is None:
+            r.ok(k, cfg.loc(fn.main), "LIMIT ?%d is bound to a run-time value (not decided)" % lim_ph, work=1)
+            continue
+        dead = None
+        for b in fn.bodies:
+            defs = cfg.defs_of(b)
+            for j in cfg.live_blocks(b):
+                bs = cfg.bool_switch(b, j)
+                if not bs or bs.defn is None or bs.def_is_term or bs.defn.get("k") != "bin" or bs.defn.get("op") not in ("Gt", "Lt"):
+                    continue
+                ea, eb = (idioms.expr_tree(b, o, defs) for o in bs.defn["ops"])
+                lhs, rhs = (ea, eb) if bs.defn["op"] == "Gt" else (eb, ea)     # lhs > rhs
+                if isinstance(lhs, tuple) and lhs[0] == "call" and lhs[1] == "len" and isinstance(rhs, tuple) and rhs[0] == "const" and isinstance(rhs[1], int) and rhs[1] >= bound:
+                    dead = (b, j, rhs[1])
+        if dead:
+            r.violation(k, cfg.loc(dead[0], dead[1]), "the reader fetches pages with LIMIT %d and continues only while `len() > %d`: a page never has more than %d rows, so only the first page is ever checked and corruption beyond it is never reported" % (bound, dead[2], bound), work=1)
+        else:
+            r.ok(k, cfg.loc(fn.main), "paged with LIMIT %d; no unsatisfiable continuation test" % bound, work=1)
+    if n == 0:
+        r.ok("sos_integrity|no-paged-readers", "-", "no integrity reader uses LIMIT: every row of a folder is streamed by one query", work=1)
+
+
 def run(ctx):
     ctx.explanation = (
         "Sibling-agreement and edge-dominance rules over sos-integrity: (R1) the sqlite branch of the vault stream reads "
@@ -268,6 +334,7 @@ def run(ctx):
     r2_r3_hash_and_gate(ctx)
     r4_failures_emitted(ctx)
     r5_nothing_skipped(ctx)
+    r7_paging_can_continue(ctx)
     # shared with C01-R7: "and nothing else" — a row whose content is rewritten by an upsert
     # that forgets to rewrite its stored commit_hash is reported as corrupted although nobody touched it
     from . import c01
